@@ -36,3 +36,13 @@ func (u *Unit) mentionsGhost(e *Expr) bool {
 	}
 	return false
 }
+
+// protocolGhost: declared `ghostvar NAME SORT protocol`.
+func (u *Unit) protocolGhost(name string) bool {
+	for _, g := range u.cs.GhostVars {
+		if g.Name == name {
+			return g.Protocol
+		}
+	}
+	return false
+}
